@@ -189,6 +189,32 @@ DETECT.update({
 })
 
 
+# ---- fifth round (one change per property, ids -i; prompt TEMPLATE5: a rarely exercised feature or input class that the
+# quantifier includes - boundary values, separator bytes, several fee outputs, negative weights, permuted lists ...) ----
+DETECT.update({
+    "C01-i": (["C01", "C02"], "MISSED", "needed VALID blocks whose award transaction has two outputs (peer op cbin 4: HEAD's award rule reads output 0 only) that are later undone by a walk; 1 valid peer block in 8 now carries such an award"),
+    "C02-i": (["C02", "C01"], "MISSED", "needed transactions with TWO fee outputs (genTxSpec: 1 fee-paying transfer in 4); conservation on the raw table then fails in the block that confirms one"),
+    "C03-i": (["C03", "C01"], "MISSED", "needed a pending transaction that read a NEVER-written key (cites no version) without writing it, and a block on the state pointer that creates exactly that key: too rare by chance, now a directed draw of genPeerOn (every other block while such a reader is pending)"),
+    "C04-i": (["C04"], "DETECTED", "GetBranchInfo compares decimal heights as strings: truncation from a two-digit height to a one-digit target leaves the blocks above"),
+    "C05-i": (["C05"], "MISSED", "needed a failed FIRST play of the root block followed by a repeated play on the same State object (NodeOpts.GenesisFault, 1 C05 history in 6; the replayer checks the state right after set-up)"),
+    "C06-i": (["C06", "C05"], "DETECTED", "pool records of dependants evicted through the recursion stay on disk: reopened pool holds a transaction whose input never existed"),
+    "C07-i": (["C11"], "MISSED by C07", "the change sits in the AK-set validator of the permission package: C11's exhaustive evaluator box (key sets x signer lists with inner / failed nodes) reports it in the quick tier. C07's account scenarios use threshold rules; C07 was not changed"),
+    "C08-i": (["C08"], "DETECTED", "certificate fields of a block whose justify has no vote list are left out of the id"),
+    "C09-i": (["C09"], "DETECTED", "verifyOutputs looks read entries up under bucket+key without the separator (same family as the C09 mutant that moves a read entry across the bucket / key boundary)"),
+    "C10-i": (["C10"], "MISSED", "needed SEVERAL buckets whose names extend one another with a byte below the '/' separator and scans with a nil / empty start key: second C10 check over drawn bucket families (c10GenFamily), oracle unchanged"),
+    "C11-i": (["C11"], "MISSED", "negative weights were only in the thorough box: quick now has a negative-weight box of its own (2-3 keys, weights {-10,-4,6,10}/10, accept 5 / 10), where a prefix of the signer list reaches the threshold the whole member set misses"),
+    "C12-i": (["C12"], "MISSED", "needed a CHILD submitted while its parent is in flight (all concurrent requests used to be assembled against one state): family parent+children - parent pays payment / fee / change in a drawn order, two rival children spend one of its outputs - and a half-directed schedule that parks the parent at a drawn protocol point while a child runs"),
+    "C13-i": (["C13"], "DETECTED", "no packing-order edge from the readers of a never-written key to its creator"),
+    "C14-i": (["C14"], "MISSED", "the verifying node was always an outsider key: every boundary certificate is now judged a second time by a verifier that IS the member under whose address the first useless entry is filed (c14Cert.Local)"),
+    "C15-i": (["C15"], "DETECTED", "a commit that prunes the branch holding HighQC resets HighQC to the new root (certified view decreases)"),
+    "C16-i": (["C16"], "MISSED", "needed validator-set changes that only PERMUTE the list, followed by the producer's own path after the change is in force: sub-check validator-reorder (props/c16_reorder_test.go) - one long-running node per member asked CompeteMaster at every tip height, compared with the list in force and with CheckMinerMatch"),
+    "C17-i": (["C17"], "DETECTED", "hoisted irreversibility check compares with < : a fork exactly at irreversible height - 1 undoes the irreversible block"),
+    "C18-i": (["C18"], "DETECTED", "undoing a pending re-create after a pending delete loses the delete marker: snapshots of every height read the key as never written"),
+    "C19-i": (["C19"], "MISSED", "needed account names that contain the key separator '_' and have another account of the universe as prefix (1 sequence in 5 over a widened universe incl. a contract account XC...@my_chain); the existing oracle (locks change only for the account the step locked / unlocked; nothing negative) does the rest"),
+    "C20-i": (["C20"], "DETECTED", "response-type messages skip the repeat filter: a repeated *_RES message is delivered again"),
+})
+
+
 def main():
     for sid in sorted(os.listdir(os.path.join(ROOT, "seeded"))):
         d = os.path.join(ROOT, "seeded", sid)
